@@ -1,1 +1,65 @@
-(* C18 *)
+(* C18 - generated code is reproducible.  Theorems only. *)
+From Coq Require Import Lia Permutation.
+From Ructe Require Import Nom Utf8 Emit Compile Md5 Static Tables Build MapProofs StaticProofs BuildProofs.
+Local Open Scope list_scope.
+
+Section C18.
+  Variable uni_esc uni_alnum : N -> bool.
+  Variable compile : bytes -> bytes -> coutcome.
+
+  (* the code generated for a template is `compile name bytes` and nothing else: whatever the
+     directory it is found in (indir, indir'), the output directory, the sub-directory handler,
+     and hence whatever its siblings are and however often it is compiled *)
+  Theorem template_code_function_of_bytes_and_name :
+    forall rec rec' indir indir' outdir outdir' stem s content code,
+    In s template_suffixes -> utf8_valid (stem ++ s) = true ->
+    compile (stem ++ b "_" ++ skipn 4 s) content = Accepted code ->
+    exists d d' g,
+      entry_delta uni_esc compile rec indir outdir (stem ++ s, File content) = BOk _ (d, g) /\
+      entry_delta uni_esc compile rec' indir' outdir' (stem ++ s, File content) = BOk _ (d', g) /\
+      map snd (plan d) = [code] /\ map snd (plan d') = [code] /\
+      map fst (plan d) = [pjoin outdir (b "template_" ++ stem ++ b "_" ++ skipn 4 s ++ b ".rs")].
+  Proof.
+    intros rec rec' indir indir' outdir outdir' stem s content code I V C.
+    pose proof (template_entry_delta uni_esc compile rec indir outdir stem s content I V) as E1.
+    pose proof (template_entry_delta uni_esc compile rec' indir' outdir' stem s content I V) as E2.
+    cbv zeta in E1, E2. unfold handle_template in E1, E2. rewrite C in E1, E2.
+    eexists. eexists. eexists. split; [exact E1|]. split; [exact E2|]. cbn. repeat split; try reflexivity.
+    now rewrite <- !app_assoc.
+  Qed.
+
+  (* the set of generated files and the set of declaration blocks of a directory depend only on
+     its entries, not on the order read_dir yields them in *)
+  Theorem module_decls_permutation_invariant :
+    forall rec indir outdir es es' deltas, framed rec -> Permutation es es' ->
+    Forall2 (fun e dg => entry_delta uni_esc compile rec indir outdir e = BOk _ dg) es deltas ->
+    exists deltas', Permutation deltas deltas' /\
+      entries_loop uni_esc compile rec w_empty [] indir outdir es = BOk _ (sum_w deltas, sum_f deltas) /\
+      entries_loop uni_esc compile rec w_empty [] indir outdir es' = BOk _ (sum_w deltas', sum_f deltas') /\
+      Permutation (plan (sum_w deltas)) (plan (sum_w deltas')).
+  Proof.
+    intros rec indir outdir es es' deltas Hrec P F.
+    destruct (Forall2_perm _ _ _ _ P F) as [deltas' [Pd Fd]].
+    exists deltas'. split; [exact Pd|].
+    rewrite (loop_all_ok uni_esc compile rec Hrec indir outdir es w_empty [] deltas F).
+    rewrite (loop_all_ok uni_esc compile rec Hrec indir outdir es' w_empty [] deltas' Fd).
+    rewrite !wapp_empty_l. cbn [app]. split; [reflexivity|]. split; [reflexivity|].
+    exact (proj1 (sum_plan_perm _ _ Pd)).
+  Qed.
+
+  (* the order of STATICS (the url-name map) depends only on the set of additions *)
+  Theorem statics_order_permutation_invariant : forall mm header (ops ops' : list sop),
+    Permutation ops ops' ->
+    NoDup (map fst (pubs uni_alnum ops)) -> NoDup (map snd (pubs uni_alnum ops)) ->
+    names_r (run_ops uni_esc uni_alnum mm header ops) = names_r (run_ops uni_esc uni_alnum mm header ops') /\
+    statics_line (run_ops uni_esc uni_alnum mm header ops) = statics_line (run_ops uni_esc uni_alnum mm header ops').
+  Proof.
+    intros mm header ops ops' P N1 N2.
+    pose proof (names_r_order_independent uni_esc uni_alnum mm header ops ops' P N1 N2) as E.
+    split; [exact E|]. unfold statics_line. now rewrite E.
+  Qed.
+End C18.
+
+Redirect "assumptions/C18.template_code_function_of_bytes_and_name" Print Assumptions template_code_function_of_bytes_and_name.
+Redirect "assumptions/C18.module_decls_permutation_invariant" Print Assumptions module_decls_permutation_invariant.
+Redirect "assumptions/C18.statics_order_permutation_invariant" Print Assumptions statics_order_permutation_invariant.
